@@ -371,6 +371,19 @@ func (g *Generator) generateBindingFile(file *protogen.File) error {
 	gf.P("writeErrorWithHandler(w, r, validationErr, errorHandler)")
 	gf.P("return")
 	gf.P("}")
+	gf.P()
+	gf.P("// Decoding the body resets the message: bind the path and query parameters again")
+	gf.P("// so that URL-carried fields keep the value given in the URL")
+	gf.P("if msg, ok := any(toBind).(proto.Message); ok {")
+	gf.P("if err := bindPathParams(r, msg, pathParams); err != nil {")
+	gf.P("writeErrorWithHandler(w, r, err, errorHandler)")
+	gf.P("return")
+	gf.P("}")
+	gf.P("if err := bindQueryParams(r, msg, queryParams); err != nil {")
+	gf.P("writeErrorWithHandler(w, r, err, errorHandler)")
+	gf.P("return")
+	gf.P("}")
+	gf.P("}")
 	gf.P("}")
 	gf.P()
 	gf.P("// Validate the complete message")
@@ -548,6 +561,8 @@ func (g *Generator) generateBindingFile(file *protogen.File) error {
 	gf.P()
 	gf.P("// Handle repeated fields (arrays)")
 	gf.P("if field.IsList() {")
+	gf.P("// Start from an empty list so that binding the same request twice does not duplicate values")
+	gf.P("reflectMsg.Clear(field)")
 	gf.P("list := reflectMsg.Mutable(field).List()")
 	gf.P("for _, v := range values {")
 	gf.P("converted, err := convertStringToFieldValue(v, field.Kind())")
